@@ -20,6 +20,9 @@ CHECKS = {
     "C03": dict(engine="E1", cat="model_checking",
                 technique="exhaustive enumeration of (wrapper shape x leaf kind) fields x adversarial resolver-value universe (values, singletons, pairs); structural conformance invariant checked on every execution of the real engine",
                 text="140 fields (14 wrapper shapes, thorough 18, x 10 leaf kinds incl. enum, custom scalar, object, interface, union) x 80-value adversarial universe, every singleton list and every pair from a 12-value core for list shapes. Invariant derived from schema model + selection: never raises, exactly the selected keys, lists where declared, no null at non-null, Int a 32-bit int, Float finite, String/ID str, Boolean bool, enum among declared values, abstract completed as a possible type, JSON-serialisable, every manufactured null explained by an error and no error without a null."),
+    "C10": dict(engine="E1+E5", cat="model_checking",
+                technique="exhaustive enumeration of 8 scalars x 3 coercion directions x boundary-value universe on the real scalar objects and through a real engine; four algebraic laws checked on every triple against reference tables",
+                text="Every (scalar, direction, value) triple over 8 built-in scalars, result/input/literal directions and a 140-value boundary universe (0, +-1, +-2^31, +-2^53, huge ints, integral/non-integral floats, NaN, +-inf, denormals, numeric/blank/unicode strings, bools, containers, temporal strings and datetimes), on the scalar objects attached to a cooked schema and through echo fields of a real engine (resolver return, literal spelling, variable spelling). Laws: L1 result fails or yields the wire type denoting the same value; L2 input accepts exactly the spec kinds (reference tables in vf/model/coerce.py); L3 literal == variable; L4 idempotence and temporal round trips."),
     "C18": dict(engine="E1", cat="model_checking",
                 technique="exhaustive enumeration of all short strings over a 14-character alphabet and of all single-token mutations of seed documents x operation names x variables objects x error coercers; envelope invariant checked on every execution",
                 text="Every string of length <= 4 (thorough 5) over {}a ():$\"1.@#\\n, every single-token deletion/duplication/replacement of 6 seed documents, byte spellings (BOM, NUL, invalid UTF-8), nesting depth 50/500/5000, x 4 error coercers x operation names x 9 variables objects. Invariant: never raises, dict with data, errors absent or non-empty with well-formed entries and in-text locations, syntax errors / failed operation selection run nothing, custom coercer awaited exactly once per error and its value used."),
